@@ -333,11 +333,12 @@ class RecordFlow:
         x = None
         if inner is not None:
             x = strip(inner)
-            if x.k == "call" and x.a[0].name in ("ok_or", "ok_or_else") and x.a[1]:
-                errarg = strip(x.a[1][1]) if len(x.a[1]) > 1 else None
-                if errarg is not None and errarg.k == "agg":
-                    err_kind = errarg.a[0].split("::")[-1]
-                x = strip(x.a[1][0])
+            # the error the None outcome is turned into (`.ok_or(E)`), if written that way
+            for c in es.walk():
+                if c.k == "call" and c.a[0].name in ("ok_or", "ok_or_else") and len(c.a[1]) > 1:
+                    errarg = strip(c.a[1][1])
+                    if errarg.k == "agg":
+                        err_kind = errarg.a[0].split("::")[-1]
         if x is not None and x.k == "call" and x.a[0].name == "checked_add" and "u64" in x.a[0].fn and len(x.a[1]) == 2:
             base = strip(x.a[1][0])
             step = const_int(x.a[1][1])
